@@ -492,6 +492,9 @@ def new_dict(R, dt):
     val = z3.Const(fresh_name("dv"), z3.ArraySort(dt.k.sort(), dt.v.sort()))
     r = R.alloc(dt, V(mt, mt.mk(has, val)))
     R.heap[r.z].ghost = {"size": z3.IntVal(0)}
+    if dt.ordered:
+        kt = T.Seq(dt.k)
+        R.heap[r.z].ghost["keys"] = V(kt, z3.Empty(kt.sort()))
     return r
 
 
@@ -818,7 +821,11 @@ def dict_delitem(R, d, key, label):
         g = dict(g)
         g["size"] = g["size"] - 1
         if "keys" in g:
-            raise Unsupported("del on key-ordered dict")
+            ks = g["keys"]
+            p_ = z3.Int(fresh_name("delpos"))
+            n_ = z3.Length(ks.z)
+            R.assume(z3.And(0 <= p_, p_ < n_, ks.z[p_] == k.z))  # the key is listed (well-formed order ghost)
+            g["keys"] = V(ks.t, z3.Concat(z3.SubSeq(ks.z, 0, p_), z3.SubSeq(ks.z, p_ + 1, n_ - p_ - 1)))
         R.heap[d.z].ghost = g
     R.set_content(d, V(m.t, m.t.mk(z3.Store(has, k.z, z3.BoolVal(False)), vals)))
 
@@ -862,6 +869,27 @@ def d_pop(R, recv, args, kw, node):
 @method(("dict", "vmap"), "keys")
 def d_keys(R, recv, args, kw, node):
     return recv
+
+
+@method("dict", "items", "values")
+def d_items(R, recv, args, kw, node):
+    """iteration in insertion order (needs the key-order ghost of an `ordered` dict)"""
+    g = R.cell_ghost(recv.z) or {}
+    if "order_independent" in g:
+        R.ctx.note_violation_flag(R, "order_independent", node)
+    if "keys" not in g:
+        raise Unsupported("dict.items() without key-order ghost (declare the dict ordered=True)")
+    ks = g["keys"]
+    m = R.content(recv, R.old_heap)
+    name = node.func.attr
+    from .interp import nth as _nth
+
+    def at(i):
+        k = V(ks.t.elem, _nth(ks.z, i))
+        v = V(m.t.v, z3.Select(m.t.val(m.z), k.z))
+        return v if name == "values" else const((k, v))
+
+    return const(Iter(z3.Length(ks.z), at, src_locs=[recv.z], seq=ks))
 
 
 # ------------------------------------------------------------------------- set
